@@ -430,6 +430,11 @@ def discharge(ex, timeout_ms=20000, use_cvc5=True, cvc5_agree=False):
                 m = s.model()
                 rec["model"] = {k: _json_safe(decode_value(m, ty, t)) for k, (ty, t) in (ob.decode or {}).items()}
                 rec["goal"] = str(z3.simplify(ob.goal))[:400]
+                if os.environ.get("PYVC_DEBUG_PC"):
+                    sys.stderr.write("---- refuted %s\n" % getattr(ob, "name", "?"))
+                    for t in ob.pc:
+                        if not ex.has_quant(t):
+                            sys.stderr.write("   pc: %s   [= %s]\n" % (str(z3.simplify(t))[:300], m.eval(t, model_completion=True)))
             else:
                 rec["status"] = "unknown"
                 rec["reason"] = s.reason_unknown()
